@@ -38,8 +38,18 @@ def cases(tier, seed):
     cfgs = F.configs(b['max_n'], F.CLASSES_2D, l_max=b['l_max_2d'], deformed=False) + \
         F.configs(b['max_n'], F.CLASSES_3D, l_max=b['l_max_3d'], deformed=False)
     out = [dict(c, cap=b['cap']) for c in cfgs]
+    base = list(out)
     out += [{'part': 'session', 'cfgs': [dict(c, cap=min(b['cap'], 60000)) for c in seq]}
-            for seq in session.interleave_by_size(out, 3)]
+            for seq in session.interleave_by_size(base, 3)]
+    # cross-class sessions: every class that has a given size tuple, one after the other in one process,
+    # first in the listed order and then reversed (a value remembered per size must not leak between classes)
+    by_size = {}
+    for c in base:
+        by_size.setdefault(tuple(c['size']), []).append(c)
+    for size, lst in sorted(by_size.items()):
+        if len(lst) >= 2 and max(size) <= 3:
+            seq = [dict(c, cap=min(b['cap'], 60000)) for c in lst]
+            out.append({'part': 'session', 'cfgs': seq + seq[::-1]})
     return out
 
 
